@@ -3,6 +3,7 @@ package c09
 // The two real worlds behind the `world` interface.
 
 import (
+	"errors"
 	"bytes"
 	"context"
 	gocodec "github.com/ugorji/go/codec"
@@ -145,6 +146,8 @@ type monWorld struct {
 	mu     sync.Mutex
 	peers  []peer.ID
 	nPeers int // calls of the peers function
+	// failCall: the calls of the peers function (1-based) that fail
+	failCall map[int]bool
 }
 
 func init() {
@@ -168,6 +171,9 @@ func newMonWorld(c wcfg, env *bubbleEnv) *monWorld {
 			w.mu.Lock()
 			defer w.mu.Unlock()
 			w.nPeers++
+			if w.failCall[w.nPeers] {
+				return nil, errors.New("model consensus: cannot retrieve the list of peers right now")
+			}
 			return append([]peer.ID{}, w.peers...), nil
 		}
 	}
